@@ -188,5 +188,13 @@ Definition response_data_ok (i o : V) : bool :=
      (forallb (fun x => match x with Some _ => true | None => false end) ids && is_prefix_ids decodable want)) &&
     (negb success || Nat.eqb (length decodable) (length want)).
 
+(** C16: in streaming-to-streaming pairs every complete backend message is visible to the client
+    (written and flushed) by the time the handler's Write returns.  intent[13] = list of
+    [complete data frames written so far; complete frames flushed to the client]. *)
+Definition progress_ok (i o : V) : bool :=
+  let it := intent_of (vnth 6 i) in
+  if negb (i_wellformed it) || i_lenient it then true else
+  forallb (fun p => vz (vnth 0 p) <=? vz (vnth 1 p)) (vl (vnth 13 (vnth 6 i))).
+
 Definition mon_response_data : monitor_t := fun suite i o =>
-  if name_is suite "serve.response" then Some (response_ok (intent_of (vnth 6 i)) o && response_data_ok i o) else None.
+  if name_is suite "serve.response" then Some (response_ok (intent_of (vnth 6 i)) o && response_data_ok i o && progress_ok i o) else None.
